@@ -17,6 +17,8 @@ CHECKS = {
          TECH + "; bounded-liveness probes after faults stop"),
  "C04": ("exploration", "Seeded exploration of migration scripts (IMPORTING, MIGRATING, one MIGRATE per key, SETSLOT) for 1-3 slots, graceful and crash fail-overs and lagging CLUSTER NODES views, every step interleaved as a simulator event with pipelined traffic on the affected keys; oracle: no reply (or nested element) is a MOVED/ASK error, every attributable write is executed by exactly one node, per-key histories are linearizable w.r.t. a reference Redis (errors admitted only around a crash fail-over and then treated as may-or-may-not-have-happened), per-connection program order is checked separately, and after settling probes see no error and a later round causes no redirection.", "4.C04",
          TECH + "; linearizability checking (porcupine) of recorded histories against a reference Redis"),
+ "C11": ("exploration", "Seeded exploration with two adversaries and a canary: adversarial downstream connections send mutated request streams (truncated frames, huge/negative/overflowing lengths, wrong terminators, nesting up to 10^6, megabyte inline lines, binary garbage, arbitrary sender-side splits), and adversarial backends replace the n-th reply to READONLY / CLUSTER NODES / ASKING / SCAN / ordinary commands by malformed MOVED/ASK/CLUSTERDOWN errors, malformed CLUSTER NODES texts, malformed SCAN replies and deeply nested frames; oracle: no task of the proxy panics, the worker process does not die (a Go fatal error is attributed to the journaled scenario and confirmed by replay), allocation around one adversarial message stays below 400 MiB, and a canary connection is served correctly once the adversaries have turned honest.", "4.C11",
+         TECH + "; adversarial peers (grammar-aware mutation) with a canary oracle"),
 }
 NA = {
 }
